@@ -71,6 +71,15 @@ static std::string int_ops(const std::string& op, const Args& a) {
         if (op == "int.rt.zring") Z.read(is, x); else is >> x;
         return hex(o.str()) + " " + show(x) + " " + after(is);
     }
+    if (op == "int.rtb") {      // base z old tail: Integer through streams in hex / oct mode (GMP honours basefield on both sides)
+        int base = atoi(a[0].c_str()); Integer z = parseZ(a[1]), x = parseZ(a[2]); std::ostringstream o;
+        if (base == 16) o << std::hex; else if (base == 8) o << std::oct;
+        o << z;
+        std::istringstream is(o.str() + unhex(a[3]));
+        if (base == 16) is >> std::hex; else if (base == 8) is >> std::oct;
+        is >> x;
+        return hex(o.str()) + " " + show(x) + " " + after(is);
+    }
     if (op == "int.strrt") { Integer z = parseZ(a[0]); std::string t = (std::string) z; Integer x(t.c_str()); return hex(t) + " " + show(x); }
     if (op == "int.cstr") { std::string s = unhex(a[0]); Integer x(s.c_str()); return show(x); }
     if (op == "int.seq") {
@@ -253,6 +262,8 @@ int main() {
     REG("u32_u64", Modular<uint32_t, uint64_t>);
     REG("i64_i64", Modular<int64_t, int64_t>); REG("i64_u64", Modular<int64_t, uint64_t>);
     REG("u64_u64", Modular<uint64_t, uint64_t>);
+    REG("i16_i16", Modular<int16_t, int16_t>); REG("u16_u16", Modular<uint16_t, uint16_t>); REG("u32_u32", Modular<uint32_t, uint32_t>);
+    REG("i64_u128", Modular<int64_t, uint128_t>); REG("u64_u128", Modular<uint64_t, uint128_t>);
     REG("f_f", Modular<float, float>); REG("f_d", Modular<float, double>); REG("d_d", Modular<double, double>);
     REG("bi32", ModularBalanced<int32_t>); REG("bi64", ModularBalanced<int64_t>);
     REG("bf", ModularBalanced<float>); REG("bd", ModularBalanced<double>);
@@ -294,7 +305,7 @@ int main() {
             } else if (op.compare(0, 3, "ru.") == 0 || op.compare(0, 3, "ri.") == 0) {
                 int K = atoi(a[0].c_str());
                 out = K == 6 ? RecIO<6>::go(op, a) : K == 7 ? RecIO<7>::go(op, a) : K == 8 ? RecIO<8>::go(op, a)
-                    : K == 9 ? RecIO<9>::go(op, a) : K == 12 ? RecIO<12>::go(op, a) : "UNSUPPORTED-K";
+                    : K == 9 ? RecIO<9>::go(op, a) : K == 10 ? RecIO<10>::go(op, a) : K == 11 ? RecIO<11>::go(op, a) : K == 12 ? RecIO<12>::go(op, a) : "UNSUPPORTED-K";
             } else out = "UNKNOWN-OP";
         } catch (...) { out = "EXCEPTION"; }
         std::cout << out << "\n";
